@@ -341,13 +341,23 @@ func (r *Router) saveStateSnapshot() error {
 	r.stateLock.Lock()
 	defer r.stateLock.Unlock()
 
-	services := []*Service{}
-	r.withReadLock(func() error {
+	// Render the snapshot while holding the read lock: installing or removing
+	// a service rewrites the TLS options of the sub-path services in place.
+	var data []byte
+	err := r.withReadLock(func() error {
+		services := []*Service{}
 		for _, service := range r.services.All() {
 			services = append(services, service)
 		}
-		return nil
+
+		var err error
+		data, err = json.Marshal(services)
+		return err
 	})
+	if err != nil {
+		slog.Error("Unable to save state", "error", err, "path", r.statePath)
+		return err
+	}
 
 	verifYield("snap_listed", r)
 	tmpPath := r.statePath + ".tmp"
@@ -357,7 +367,7 @@ func (r *Router) saveStateSnapshot() error {
 	}
 
 	verifYield("snap_created", r)
-	err = json.NewEncoder(f).Encode(services)
+	_, err = f.Write(append(data, '\n'))
 	if closeErr := f.Close(); err == nil {
 		err = closeErr
 	}
